@@ -269,6 +269,11 @@ class PCycles(PHarness):
                  oracles=O, bound=d, cap=cap, drain_before_exit=False),
             dict(ptopo='PT', topo='seq', capacity=8, rounds=2, pipe=40, calls=[], stream=dict(xs=list(range(6)), stop_after=1),
                  oracles=O, bound=d, cap=cap, drain_before_exit=False),
+            # two competing workers per process stage: one of them may see the end marker while its sibling is still working
+            dict(ptopo='PP', topo='seq', nworkers=2, capacity=8, rounds=2, pipe=40, calls=[],
+                 stream=dict(xs=list(range(8)), stop_after=1), oracles=O, bound=1, cap=cap, drain_before_exit=False),
+            dict(ptopo='P', topo='single', nworkers=2, capacity=8, rounds=2, pipe=40, calls=[],
+                 stream=dict(xs=list(range(8)), stop_after=1), oracles=O, bound=1, cap=cap, drain_before_exit=False),
             # the abandoned stream is still open when the server is left, and closed afterwards
             dict(ptopo='P', topo='single', capacity=2, rounds=2, calls=[], drain_before_exit=False,
                  stream=dict(xs=list(range(6)), stop_after=1, close='after_exit'), oracles=['shutdown'], bound=d, cap=cap),
